@@ -210,7 +210,14 @@ theorem setOrCall_ok (cfg : Config) {x : Ctx} (h : Inv x.st) {p : Peer} (hp : p 
       have heo : e.owner ∈ conns x.st.peers := by
         obtain ⟨q, hq, hqe, _⟩ := findElement_mem he
         exact mem_conns.2 ⟨q, hq, (h.owner q hq e hqe).symm⟩
-      repeat' split
-      all_goals first | exact Ok.refl h | exact routeMain_ok cfg h hp req _ _ isState heo _ _
+      split
+      · exact Ok.refl h
+      · split
+        · exact Ok.refl h
+        · split
+          · exact Ok.refl h
+          · dsimp only
+            split
+            all_goals first | exact Ok.refl h | exact routeMain_ok cfg h hp req _ _ isState heo _ _
 
 end Cjet.Daemon.C05
